@@ -1,0 +1,12 @@
+//go:build verif
+
+// Contracts for the verification machinery in /verif (comment-only; never compiled into a binary).
+// Property C17 (pod migration controller): assumptions about helpers of the reservation package.
+
+package reservation
+
+// Builds the reservation options from a deep copy of the job's options and the pod's template; the job and
+// the pod themselves are only read. Not verified (the generated DeepCopy methods have no loaded body).
+//@ func CreateOrUpdateReservationOptions [C17]
+//@   modifies nothing
+//@   option trusted
